@@ -166,7 +166,10 @@ def merge_same_name(h):
     files, gos, loaded, open_summary = setup_inputs(h, 2)
     I = h.I
     nc = I.hooks['nc_files']
-    for d, f in zip(('a', 'b'), files):
+    # given as an explicit list (a/x.nc, b/x.nc), or by a numbered pattern whose number is in a directory name (run_1/x.nc, run_2/x.nc)
+    by_pattern = h.choice(2) == 1
+    h.ctx.named['inputs_given_by_pattern'] = z3.BoolVal(by_pattern)
+    for d, f in zip(('run_1', 'run_2') if by_pattern else ('a', 'b'), files):
         gos.dirs.add(d)
         ds = nc.pop(f.name)
         f.name = d + '/x.nc'
@@ -176,7 +179,10 @@ def merge_same_name(h):
     cls = h.cls(TS)
     before = {k: v for k, v in nc.items()}
     try:
-        I.call(I.getattr(cls, 'merge'), ['out.aeic-store', [f.name for f in files]], {})
+        if by_pattern:
+            I.call(I.getattr(cls, 'merge'), ['out.aeic-store'], dict(input_stores_pattern='run_{index}/x.nc', input_stores_index_range=(1, 2)))
+        else:
+            I.call(I.getattr(cls, 'merge'), ['out.aeic-store', [f.name for f in files]], {})
     except PyExc as e:
         h.ensure('same-name-inputs-are-refused-by-name', h.exc_is(e, 'ValueError'), note=repr(e.inst))
         h.ensure('refused-merge-leaves-the-inputs-where-they-were', all(nc.get(k) is v for k, v in before.items()) and 'out.aeic-store/metadata.json' not in gos.json)
@@ -333,41 +339,49 @@ def location_lemma(h):
 
 # ------------------------------------------------------------------------------------------------
 def replay_same_name(payload):
-    """a/x.nc and b/x.nc merged: refused untouched, or all trajectories of both still readable."""
+    """a/x.nc and b/x.nc merged (explicit list), run_1/x.nc and run_2/x.nc (numbered pattern): refused untouched, or all
+    trajectories of both still readable."""
     import os
     import shutil
     import tempfile
     from AEIC.trajectories import TrajectoryStore
     from contracts.C07 import _mk
-    tmp = tempfile.mkdtemp(prefix='c09n-', dir=os.environ.get('VERIF_SCRATCH'))
     problems = []
-    try:
-        want = []
-        for d, base in (('a', 0), ('b', 100)):
-            os.mkdir(os.path.join(tmp, d))
-            TrajectoryStore.active_in_thread = None
-            with TrajectoryStore.create(base_file=os.path.join(tmp, d, 'x.nc')) as ts:
-                for i in range(2):
-                    ts.add(_mk(base + i, fid=base + i))
-                    want.append(float(1000 + base + i))
-        out = os.path.join(tmp, 'out.aeic-store')
-        TrajectoryStore.active_in_thread = None
+    for how, dirs in (('list', ('a', 'b')), ('pattern', ('run_1', 'run_2'))):
+        tmp = tempfile.mkdtemp(prefix='c09n-', dir=os.environ.get('VERIF_SCRATCH'))
         try:
-            TrajectoryStore.merge(out, [os.path.join(tmp, 'a', 'x.nc'), os.path.join(tmp, 'b', 'x.nc')])
-        except ValueError:
-            for d in ('a', 'b'):
-                if not os.path.exists(os.path.join(tmp, d, 'x.nc')):
-                    problems.append(f'merge refused but {d}/x.nc is gone')
-            return dict(reproduced=bool(problems), observed=problems)
-        TrajectoryStore.active_in_thread = None
-        with TrajectoryStore.open(base_file=out) as ms:
-            got = [float(ms[i].starting_mass) for i in range(len(ms))]
-        if got != want:
-            problems.append(f'merged a/x.nc + b/x.nc reads {got}, the inputs held {want}: one input overwrote the other')
-        return dict(reproduced=bool(problems), observed=problems, required='merged store = concatenation of the inputs, nothing lost')
-    finally:
-        TrajectoryStore.active_in_thread = None
-        shutil.rmtree(tmp, ignore_errors=True)
+            want = []
+            for d, base in zip(dirs, (0, 100)):
+                os.mkdir(os.path.join(tmp, d))
+                TrajectoryStore.active_in_thread = None
+                with TrajectoryStore.create(base_file=os.path.join(tmp, d, 'x.nc')) as ts:
+                    for i in range(2):
+                        ts.add(_mk(base + i, fid=base + i))
+                        want.append(float(1000 + base + i))
+            out = os.path.join(tmp, 'out.aeic-store')
+            TrajectoryStore.active_in_thread = None
+            try:
+                if how == 'list':
+                    TrajectoryStore.merge(out, [os.path.join(tmp, d, 'x.nc') for d in dirs])
+                else:
+                    TrajectoryStore.merge(out, input_stores_pattern=os.path.join(tmp, 'run_{index}', 'x.nc'), input_stores_index_range=(1, 2))
+            except ValueError:
+                for d in dirs:
+                    if not os.path.exists(os.path.join(tmp, d, 'x.nc')):
+                        problems.append(f'merge ({how}) refused but {d}/x.nc is gone')
+                continue
+            TrajectoryStore.active_in_thread = None
+            try:
+                with TrajectoryStore.open(base_file=out) as ms:
+                    got = [float(ms[i].starting_mass) for i in range(len(ms))]
+            except Exception as e:   # noqa
+                got = f'{type(e).__name__}: {e}'
+            if got != want:
+                problems.append(f'merged {dirs[0]}/x.nc + {dirs[1]}/x.nc ({how}) reads {got}, the inputs held {want}: one input overwrote the other')
+        finally:
+            TrajectoryStore.active_in_thread = None
+            shutil.rmtree(tmp, ignore_errors=True)
+    return dict(reproduced=bool(problems), observed=problems, required='merged store = concatenation of the inputs, nothing lost')
 
 
 def replay(payload):
